@@ -433,6 +433,9 @@ def check(report: Report, repo: Repo) -> None:
         g, N = build(it, sc)
         gm = Obj("torch.fx.GraphModule", attrs={"graph": g.obj}, term=T("param", ("gm",)))
         replace = {k: (it.get_global(FN, v[2:]) if isinstance(v, str) and v.startswith("U:") else v) for k, v in umap.items()}
+        tm_obj = it.get_global(FN, "torch_map")
+        tm_before = dict(tm_obj) if isinstance(tm_obj, dict) else None
+        replace_before = dict(replace)
         try:
             usb = it.get_global(US, "unit_scaling_backend")
             backend = it.call_function(usb, [replace], {})
@@ -441,6 +444,11 @@ def check(report: Report, repo: Repo) -> None:
         except Unsupported as ex:
             report.add("R1-rewrite", cons, None, f"[{sname}] outside fragment: {ex}")
             continue
+        if tm_before is not None:
+            same_tm = isinstance(tm_obj, dict) and set(tm_obj) == set(tm_before) and all(tm_obj[k_] is tm_before[k_] for k_ in tm_before)
+            report.add("R1-rewrite", f"{FN}::torch_map::unchanged", same_tm, f"[{sname}] running the backend leaves the library's global torch -> unit-scaled table as it was (user replacements of one unit_scale() call must not leak into later ones)", sorted(tkey(k_) for k_ in set(tm_obj) ^ set(tm_before)) if isinstance(tm_obj, dict) else fmt(tm_obj), [], nontrivial=False)
+        same_rep = set(replace) == set(replace_before) and all(replace[k_] is replace_before[k_] for k_ in replace_before)
+        report.add("R1-rewrite", f"{cons}::replace-unchanged", same_rep, f"[{sname}] the caller's `replace` mapping is not modified", "changed" if not same_rep else "unchanged", "unchanged", nontrivial=False)
         n_sc += 1
         raised = [e["exc"] for e in it.events if e.kind == "raise"]
         report.add("R1-no-raise", cons, not raised and res is not BOTTOM, f"[{sname}] the backend must run without error; " + "; ".join(raised), raised, [])
